@@ -173,9 +173,10 @@ size_t varintRLEDecode(const uint8_t *src, uint64_t *values, size_t maxCount) {
             break;
         }
 
-        /* Write run values */
+        /* Write run values, clamped to the room left (totalDecoded + runLen
+         * may wrap for a hostile run length) */
         size_t toWrite = runLen;
-        if (totalDecoded + toWrite > maxCount) {
+        if (toWrite > maxCount - totalDecoded) {
             toWrite = maxCount - totalDecoded;
         }
 
@@ -184,7 +185,7 @@ size_t varintRLEDecode(const uint8_t *src, uint64_t *values, size_t maxCount) {
         }
         totalDecoded += toWrite;
 
-        if (totalDecoded + runLen > maxCount && toWrite < runLen) {
+        if (toWrite < runLen) {
             /* Didn't decode full run, stop */
             break;
         }
